@@ -247,6 +247,53 @@ func TestVerifE9DqCorr(t *testing.T) {
 		var want [][]byte
 		clean := true
 		everPut := map[string]bool{}
+		// hard-kill oracle (Props.E9Kill.kill_after_any_history): `dup` = records received since the metadata
+		// file was last written (it is reset whenever the file's text changes or disappears). After ONE kill
+		// of a clean history: metadata present => the queue is dup ++ want, Depth() = the file's stale depth;
+		// absent => depth 0, everything lost. `killed` = depth-stale mode (Props.E9Kill.stale_depth_*): the
+		// FIFO oracle goes on, Depth() is not checked until the reader has reached the tail (then it is 0).
+		var dup [][]byte
+		killed := false
+		lastRF, lastWF := int64(0), int64(0)
+		expectDepth := int64(-1)
+		dirtyAfterReopen := false
+		metaNow := func() string {
+			_, _, m, ok, _ := vfE9List(h.dir)
+			if !ok {
+				return "<none>"
+			}
+			return m
+		}
+		kill := func() {
+			if !clean || killed {
+				clean = false
+				return
+			}
+			m := metaNow()
+			if m == "<none>" {
+				hist["kill-oracle-no-metadata"]++
+				if len(want) > 0 {
+					hist["kill-oracle-no-metadata-lost>0"]++
+				}
+				want = nil
+				expectDepth = 0
+				dirtyAfterReopen = true // stale data files stay behind: later writes may collide with them
+			} else {
+				var a int64
+				fmt.Sscanf(m, "%d\n", &a)
+				expectDepth = a
+				hist["kill-oracle-with-metadata"]++
+				if len(dup) > 0 {
+					hist["kill-oracle-redelivers>0"]++
+				}
+				if a != int64(len(dup)+len(want)) {
+					hist["kill-oracle-depth-stale"]++
+				}
+				want = append(append([][]byte{}, dup...), want...)
+				killed = true
+			}
+			dup = nil
+		}
 		var metaHist []string
 		seqNo := 0
 		body := func() []byte {
@@ -298,9 +345,19 @@ func TestVerifE9DqCorr(t *testing.T) {
 			d := h.barrier()
 			out.Case(fmt.Sprintf("reopen %d %d %d %d", h.cfg[0], h.cfg[1], h.cfg[2], h.cfg[3]), "ok "+h.full())
 			hist["reopen"]++
-			if clean && d != int64(len(want)) {
+			if expectDepth >= 0 {
+				if d != expectDepth {
+					fail("case %d: depth %d after kill/reopen, the metadata file said %d (%d records expected in the queue)", c, d, expectDepth, len(want))
+				}
+				expectDepth = -1
+				if dirtyAfterReopen {
+					clean = false
+					dirtyAfterReopen = false
+				}
+			} else if clean && !killed && d != int64(len(want)) {
 				fail("case %d: depth %d after close/reopen, %d records were queued", c, d, len(want))
 			}
+			dup = nil
 		}
 		corrupt := func() {
 			dat, _, meta, hasMeta, _ := vfE9List(h.dir)
@@ -379,12 +436,24 @@ func TestVerifE9DqCorr(t *testing.T) {
 				metaHist = append(metaHist, m)
 			}
 			k := r.Intn(100)
+			if clean && !killed && len(dup) > 0 && r.Intn(5) == 0 {
+				k = 95 // kill while the metadata lags behind the reader: the re-delivery clause of the kill oracle
+			}
+			if rfNow, wfNow := h.field("readFileNum"), h.field("writeFileNum"); clean && !killed && (rfNow != lastRF || wfNow != lastWF) && r.Intn(3) == 0 {
+				k = 95 // kill right after the writer rolled / the reader changed file: the metadata must have followed
+				hist["kill-after-file-change"]++
+			}
+			lastRF, lastWF = h.field("readFileNum"), h.field("writeFileNum")
 			switch {
 			case k < 46:
 				b := body()
 				before := h.fsLine()
+				mb := metaNow()
 				err := h.q.Put(b)
 				h.barrier()
+				if metaNow() != mb {
+					dup = nil
+				}
 				res := "ok"
 				valid := int64(len(b)) >= minSz && int64(len(b)) <= maxSz
 				if err != nil {
@@ -405,8 +474,14 @@ func TestVerifE9DqCorr(t *testing.T) {
 					fail("case %d: rejected Put changed the data files: %s -> %s", c, before, after)
 				}
 			case k < 74:
+				mb := metaNow()
 				res, m, got := h.recv()
-				h.barrier()
+				dNow := h.barrier()
+				if got && metaNow() == mb {
+					dup = append(dup, m)
+				} else if got {
+					dup = nil
+				}
 				out.Case("recv", res+" "+h.full())
 				hist["recv-"+strings.SplitN(res, ":", 2)[0]]++
 				if clean {
@@ -421,12 +496,20 @@ func TestVerifE9DqCorr(t *testing.T) {
 				}
 				if got && len(want) > 0 {
 					want = want[1:]
+					if clean && killed && len(want) == 0 {
+						// the reader reached the tail: checkTailCorruption has reset the stale depth
+						if dNow != 0 {
+							fail("case %d: Depth() = %d after the reader drained the queue that survived a kill", c, dNow)
+						}
+						killed = false
+						hist["kill-oracle-depth-healed"]++
+					}
 				}
 			case k < 79:
 				d := h.barrier()
 				out.Case("depth", fmt.Sprintf("depth:%d ", d)+h.full())
 				hist["depth"]++
-				if clean && d != int64(len(want)) {
+				if clean && !killed && d != int64(len(want)) {
 					fail("case %d: Depth() = %d, %d records queued", c, d, len(want))
 				}
 			case k < 83:
@@ -439,6 +522,8 @@ func TestVerifE9DqCorr(t *testing.T) {
 				out.Case("empty", res+" "+h.full())
 				hist["empty"]++
 				want = nil
+				dup = nil
+				killed = false // Empty resets depth to 0: healthy again (Props.E9Kill.stale_depth_healed)
 				dat, _, _, hasMeta, _ := vfE9List(h.dir)
 				if len(dat) > 0 || (hasMeta && se != 0) {
 					if clean {
@@ -478,13 +563,13 @@ func TestVerifE9DqCorr(t *testing.T) {
 				h.dir = nd
 				out.Case("crash", "ok "+h.fsLine())
 				hist["crash"]++
-				clean = false
+				kill()
 			default:
 				h.q.Delete()
 				h.open = false
 				out.Case("delete", "ok "+h.full())
 				hist["delete"]++
-				clean = false // Delete does not persist the metadata: like a kill
+				kill() // Delete does not persist the metadata: like a kill
 			}
 		}
 		if h.open {
